@@ -352,6 +352,27 @@ def s3_calculator(ctx):
                       {'first_difference': next(i for i, (a, b) in enumerate(zip(*seqs)) if a != b)})
     if not (5 < sum(seqs[0]) < 55):
         ctx.violation('S3 storage-level sampling with ratio 0.5 kept %d of 60' % sum(seqs[0]), {})
+    # ... and in two fresh interpreter processes with different string-hash seeds, for several key prefixes
+    import json
+    import os
+    import subprocess
+    import sys
+    script = os.path.join(env.VERIF, 'vlib', 's3sampling_probe.py')
+    runs = []
+    for hs in ('1', '2'):
+        try:
+            p = subprocess.run([sys.executable, script], stdout=subprocess.PIPE, stderr=subprocess.PIPE, text=True, timeout=300,
+                               env=dict(os.environ, VERIF_REPO=env.REPO, PYTHONHASHSEED=hs))
+            runs.append(json.loads([l for l in p.stdout.splitlines() if l.startswith('SAMPLING ')][-1][9:]))
+        except Exception as ex:
+            ctx.inconclusive('S3 sampling probe in a fresh process failed: %r' % (ex,))
+    if len(runs) == 2:
+        for prefix in sorted(runs[0]):
+            ctx.case(('s3repro-processes', prefix))
+            ctx.count('s3_reproducibility_decisions', 120)
+            if runs[0][prefix] != runs[1][prefix]:
+                ctx.violation('S3 storage-level sampling is not reproducible from the seed: two processes (different string-hash seeds) kept different recordings of the '
+                              'same history with key prefix %r' % prefix, {'kept': [runs[0][prefix].count('1'), runs[1][prefix].count('1')]})
     # without a calculator everything is stored and no draw is consumed
     fake = FakeS3()
     with fake.installed():
@@ -483,7 +504,8 @@ def shared_parameters_object(ctx):
             rec._random = SpyRandom(17 + variant)
             rec.enable_recording()
             defaults = RecordingParameters(sampling_rate=0.3)
-            before = dict(vars(defaults))
+            public = lambda o: dict((k, getattr(o, k)) for k in ('sampling_rate', 'ignore_enforced_sampling', 'skipped', 'copy_data_on_intercepion'))
+            before = public(defaults)
 
             def make(name):
                 return genclasses.register(type(name, (object,), {'execute': rec.operation()(lambda self, force: (rec.force_sample_recording() if force else None, 5)[1])}))
@@ -512,8 +534,40 @@ def shared_parameters_object(ctx):
                 i = next(i for i, (a, b) in enumerate(zip(got, exp)) if a != b)
                 ctx.violation('decisions of a class changed when ANOTHER class was registered with the same parameters object (decision %d: %r, policy %r)' % (i, got[i], exp[i]),
                               dict(w, kept=got.count('save'), expected_kept=exp.count('save')))
-            if dict(vars(defaults)) != before:
-                ctx.violation('the caller\'s RecordingParameters object was modified by a registration', dict(w, before=repr(before), after=repr(vars(defaults))))
+            if public(defaults) != before:
+                ctx.violation('the caller\'s RecordingParameters object was modified by a registration', dict(w, before=repr(before), after=repr(public(defaults))))
+
+
+def rate_retuned_at_run_time(ctx):
+    """The sampling rate of a class is re-tuned at run time on its registered RecordingParameters object (a settings sync): from then on
+    decisions follow the new rate - also when the object has already taken part in decisions."""
+    from playback.tape_recorder import TapeRecorder, RecordingParameters
+    from vlib import genclasses
+    from vlib.spies import SpyRandom
+    with open_box('memory') as box:
+        spy = SpyCassette(box.cassette)
+        rec = TapeRecorder(spy)
+        rec._random = SpyRandom(29)
+        rec.enable_recording()
+        params = RecordingParameters(sampling_rate=0.3)
+        cls = rec.recording_params(params)(genclasses.register(type('Retuned', (object,), {'execute': rec.operation()(lambda self: 5)})))
+        got, exp = [], []
+        for phase, rate in enumerate([0.3, 0.0, 1.0, 0.7, 0.3, 2.5]):
+            params.sampling_rate = rate
+            for i in range(12):
+                n0, d0 = len(spy.log), len(rec._random.draws)
+                cls().execute()
+                ev = [e[0] for e in spy.log[n0:] if e[0] in ('create', 'save', 'abort')]
+                got.append({('create', 'save'): 'save', ('create', 'abort'): 'abort'}.get(tuple(ev), 'other:' + ','.join(ev)))
+                used = rec._random.draws[d0:]
+                exp.append(ref_keep(False, False, False, False, rate, used[0] if used else None))
+        ctx.case(('rate_retuned_at_run_time',))
+        ctx.count('decisions_compared', len(got))
+        ctx.count('decisions_after_the_rate_was_retuned', len(got) - 12)
+        if got != exp:
+            i = next(i for i, (a, b) in enumerate(zip(got, exp)) if a != b)
+            ctx.violation('after the sampling rate was re-tuned on the registered parameters object decision %d is %r, the policy (rate %r) says %r' % (
+                i, got[i], [0.3, 0.0, 1.0, 0.7, 0.3, 2.5][i // 12], exp[i]), {'rate_retuned': True, 'kept': got.count('save'), 'expected_kept': exp.count('save')})
 
 
 def failing_abort(ctx):
@@ -783,6 +837,8 @@ def run(ctx):
     if ctx.shard == 0:
         shared_parameters_object(ctx)
     redundant_enable(ctx)
+    if ctx.shard == 0:
+        rate_retuned_at_run_time(ctx)
     failing_abort(ctx)
     explicit_scopes(ctx)
     histories(ctx)
@@ -798,6 +854,8 @@ def run(ctx):
 
 
 def replay(ctx, w):
+    if w.get('rate_retuned'):
+        return rate_retuned_at_run_time(ctx)
     if isinstance(w.get('row'), dict) and w['row'].get('failing_abort'):
         return failing_abort(ctx)
     if w.get('shared_parameters_object'):
